@@ -41,7 +41,7 @@ fn stream_bytes<'a>(m: &'a Model, path: &[String]) -> &'a [u8] {
 pub fn run_read_script(image: &Arc<Mutex<Vec<u8>>>, helper: &Engine, max_buf: Option<u32>, strict: bool, script: &[Op], ctl: &Arc<Mutex<Ctl>>, trace: &mut Vec<String>) -> Result<ReadRunStats, Fail> {
     let mut st = ReadRunStats::default();
     let tries = 4;
-    let mk_io = || Io { data: image.clone(), pos: 0, ctl: Some(ctl.clone()), cap: crate::backend::DEFAULT_CAP };
+    let mk_io = || Io { data: image.clone(), pos: 0, ctl: Some(ctl.clone()), cap: crate::backend::DEFAULT_CAP, file: None, file_path: None };
     let fired = |ctl: &Arc<Mutex<Ctl>>| ctl.lock().unwrap().counters.faults_fired;
     // open (with retries)
     let mut cfbo: Option<Cfb> = None;
